@@ -122,7 +122,12 @@ class Model:
         self.amalg = None
         self.stats = {}
         self._focus = {}
-        self._build(want_inl)
+        try:
+            self._build(want_inl)
+        except BaseException:
+            if not keep:
+                shutil.rmtree(self.work, True)
+            raise
 
     # -- steps ---------------------------------------------------------------------
     def _cc(self, src, out, extra=()):
